@@ -281,6 +281,9 @@ def observe(q, u, frac, route, arrays, faults=True, pre=()):
             x = build(q, u, route, lambda s: q.Measurement(2.0, 0.1, unit=s))
             s = x.unit
             out["s"] = s
+            # the other places in which the library prints the unit of this quantity
+            out["shown"] = {"str(a)": str(x).endswith(" [{}]".format(s)) if s else True,
+                            "a.unit again": x.unit == s}
         except Exception as e:  # noqa: BLE001
             out["build_exception"] = "{}: {}".format(type(e).__name__, e)
             return out
@@ -317,6 +320,9 @@ def observe(q, u, frac, route, arrays, faults=True, pre=()):
             try:
                 arr = build(q, u, route, lambda s: q.MeasurementArray([1.0, 2.0, 3.0], 0.1, unit=s))
                 out["arr_unit"] = arr.unit
+                out["shown"]["str(array)"] = str(arr).endswith(" ({})".format(arr.unit)) if arr.unit \
+                    else True
+                out["shown"]["XYDataSet.xunit"] = q.XYDataSet(arr, [1.0, 2.0, 3.0]).xunit == arr.unit
             except Exception as e:  # noqa: BLE001
                 out["arr_build_exception"] = "{}: {}".format(type(e).__name__, e)
                 arr = None
@@ -385,6 +391,12 @@ def judge(u, frac, o, m_print, m_parse, pre=()):
                           oracle="independent", what="the printed unit {!r} parses to other "
                           "exponents".format(s), impl=X.show(val), expected=X.show(want),
                           clause="same exponents"))
+    for where, same in sorted(o.get("shown", {}).items()):
+        if not same:
+            fails.append(dict(base, signature="c13:shown-differs:{}:{}".format(where, style),
+                              oracle="independent", what="{} does not show the unit string {!r} that "
+                              "a.unit returns".format(where, s), impl=where, expected=s,
+                              clause="every unit string the library prints"))
     if any(x[1] == "accepted" for x in o.get("faults", [])):
         pass    # a request meant to be rejected was accepted (C12 / C20 statement): not judged here
     else:
